@@ -17,6 +17,7 @@ import numpy as np
 import onnx
 from onnx import TensorProto as TP
 from onnx import helper
+import onnx.numpy_helper  # noqa: F401
 
 OPSET = 21
 
@@ -411,6 +412,40 @@ def special_models():
         gb.output.append(helper.make_tensor_value_info("y", TP.FLOAT, [1, 2, 1]))
         gb.output.append(helper.make_tensor_value_info("stat", TP.FLOAT, [2]))
         out.append((label, helper.make_model(gb, opset_imports=[helper.make_opsetid("", OPSET)], ir_version=10)))
+    # two large initializers (> 128 KiB each) of equal dtype/shape that agree on a long head and tail and differ
+    # at one position: at the start, in the middle, at the end
+    n_big = 40000
+    for where, pos in (("start", 0), ("middle", n_big // 2), ("end", n_big - 1)):
+        gl = onnx.GraphProto(name="main")
+        gl.input.extend([_vi("x"), _vi("c", TP.BOOL, ())])
+        a = np.arange(n_big, dtype=np.float32) % 7
+        b = a.copy()
+        b[pos] += 1.0
+        gl.initializer.append(onnx.numpy_helper.from_array(a, "big_a"))
+        gl.initializer.append(onnx.numpy_helper.from_array(b, "big_b"))
+        gl.node.append(helper.make_node("Sub", ["big_b", "big_a"], ["diff"], name="sub_big"))
+        gl.output.append(helper.make_tensor_value_info("diff", TP.FLOAT, [n_big]))
+        out.append((f"large_initializers_differ_at_{where}", helper.make_model(gl, opset_imports=[helper.make_opsetid("", OPSET)], ir_version=10)))
+    # an Identity the eliminator must keep (graph input -> graph output) whose two sides are annotated differently
+    for in_shape, out_shape, label in ((["N"], [2], "output_more_specific"), ([2], ["N"], "input_more_specific"), (["N"], ["K"], "different_symbols")):
+        gi = onnx.GraphProto(name="main")
+        gi.input.extend([helper.make_tensor_value_info("x", TP.FLOAT, in_shape), _vi("c", TP.BOOL, ())])
+        gi.node.append(helper.make_node("Identity", ["x"], ["y"], name="keep_id"))
+        gi.node.append(helper.make_node("Neg", ["x"], ["z"], name="neg"))
+        gi.output.extend([helper.make_tensor_value_info("y", TP.FLOAT, out_shape), helper.make_tensor_value_info("z", TP.FLOAT, ["M"])])
+        out.append((f"kept_identity_{label}", helper.make_model(gi, opset_imports=[helper.make_opsetid("", OPSET)], ir_version=10)))
+    # an If whose branches return a captured outer value through an Identity (kept), branch outputs typed with a shape
+    gb = onnx.GraphProto(name="main")
+    gb.input.extend([helper.make_tensor_value_info("x", TP.FLOAT, ["K"]), _vi("c", TP.BOOL, ())])
+    tb = onnx.GraphProto(name="tb")
+    tb.node.append(helper.make_node("Identity", ["x"], ["tb_o"], name="tb_id"))
+    tb.output.append(helper.make_tensor_value_info("tb_o", TP.FLOAT, [2]))
+    eb = onnx.GraphProto(name="eb")
+    eb.node.append(helper.make_node("Neg", ["x"], ["eb_o"], name="eb_neg"))
+    eb.output.append(helper.make_tensor_value_info("eb_o", TP.FLOAT, [2]))
+    gb.node.append(helper.make_node("If", ["c"], ["r"], name="if_keep", then_branch=tb, else_branch=eb))
+    gb.output.append(helper.make_tensor_value_info("r", TP.FLOAT, ["R"]))
+    out.append(("kept_identity_in_branch_over_captured_value", helper.make_model(gb, opset_imports=[helper.make_opsetid("", OPSET)], ir_version=10)))
     g2 = onnx.GraphProto(name="main")
     g2.input.extend([_vi("x"), _vi("c", TP.BOOL, ())])
     g2.node.append(helper.make_node("Identity", ["x"], ["y"], name="id"))
@@ -425,7 +460,8 @@ INPUT_VECTORS = [np.array(v, dtype=np.float32) for v in ([-2.0, 0.0], [1.0, 3.0]
 
 def feeds_for(model):
     inits = {t.name for t in model.graph.initializer}
-    shapes = {i.name: [d.dim_value for d in i.type.tensor_type.shape.dim] for i in model.graph.input if i.name not in inits}
+    # symbolic / unknown dims are fed with the length of the input vectors
+    shapes = {i.name: [d.dim_value or 2 for d in i.type.tensor_type.shape.dim] for i in model.graph.input if i.name not in inits}
     out = []
     for xv in INPUT_VECTORS:
         for cv in (True, False):
